@@ -339,7 +339,7 @@ fn settings(r: &mut Sm, k: usize) -> Vec<Setting> {
             .collect()
     };
     for i in 0..k {
-        let n = 1 + (i % 4);
+        let n = [1usize, 3, 6, 2, 4, 5, 6, 2][i % 8];
         v.push(Setting { spec: Spec::plain(Wrap::R, CK::R { n, bounds: Some(rb(r, n)) }, None), via: "direct" });
         let s2 = if i == 0 {
             None
